@@ -25,8 +25,8 @@ type Job struct {
 	Name   string          `json:"name"`
 	Params json.RawMessage `json:"params,omitempty"`
 	// Deadline (unix seconds) after which the job should stop and report what it covered.
-	Deadline int64 `json:"deadline,omitempty"`
-	Tier     string `json:"tier,omitempty"`
+	Deadline int64      `json:"deadline,omitempty"`
+	Tier     string     `json:"tier,omitempty"`
 	Replay   *Violation `json:"replay,omitempty"`
 }
 
@@ -45,24 +45,24 @@ func MkJob(name string, params any) Job {
 
 // JobResult is what a worker reports per job.
 type JobResult struct {
-	JobID       int              `json:"job_id"`
-	Name        string           `json:"name"`
-	Execs       int64            `json:"execs"`       // executions / cases evaluated
-	Nontrivial  int64            `json:"nontrivial"`  // distinct non-trivial cases (by the check's rule)
-	Steps       int64            `json:"steps"`       // scheduler steps (transitions)
-	States      []uint64         `json:"states"`      // distinct state fingerprints
-	Outcomes    map[string]int64 `json:"outcomes"`    // distinct observable outcomes
-	Violations  []Violation      `json:"violations"`
-	Capped      string           `json:"capped,omitempty"`
-	MaxDev      int              `json:"max_dev"`
-	Replayed    int64            `json:"replayed"` // executions replayed for the determinism guard
-	Samples     []string         `json:"samples,omitempty"`
-	Extra       map[string]float64 `json:"extra,omitempty"` // max-merged numeric observations
-	Notes       []string         `json:"notes,omitempty"`
-	ToolErr     string           `json:"tool_err,omitempty"`
-	Died        string           `json:"died,omitempty"`
-	WallS       float64          `json:"wall_s"`
-	DevHist     map[string]int64 `json:"dev_hist,omitempty"`
+	JobID      int                `json:"job_id"`
+	Name       string             `json:"name"`
+	Execs      int64              `json:"execs"`      // executions / cases evaluated
+	Nontrivial int64              `json:"nontrivial"` // distinct non-trivial cases (by the check's rule)
+	Steps      int64              `json:"steps"`      // scheduler steps (transitions)
+	States     []uint64           `json:"states"`     // distinct state fingerprints
+	Outcomes   map[string]int64   `json:"outcomes"`   // distinct observable outcomes
+	Violations []Violation        `json:"violations"`
+	Capped     string             `json:"capped,omitempty"`
+	MaxDev     int                `json:"max_dev"`
+	Replayed   int64              `json:"replayed"` // executions replayed for the determinism guard
+	Samples    []string           `json:"samples,omitempty"`
+	Extra      map[string]float64 `json:"extra,omitempty"` // max-merged numeric observations
+	Notes      []string           `json:"notes,omitempty"`
+	ToolErr    string             `json:"tool_err,omitempty"`
+	Died       string             `json:"died,omitempty"`
+	WallS      float64            `json:"wall_s"`
+	DevHist    map[string]int64   `json:"dev_hist,omitempty"`
 }
 
 func (r *JobResult) AddStats(st *Stats) {
@@ -195,7 +195,8 @@ func Main() {
 
 func workerMain(id string) {
 	runtime.GOMAXPROCS(1)
-	debug.SetGCPercent(200)
+	debug.SetGCPercent(1500)
+	debug.SetMemoryLimit(1 << 30)
 	if pf := os.Getenv("VERIF_PROF"); pf != "" {
 		f, _ := os.Create(pf)
 		pprof.StartCPUProfile(f)
@@ -327,6 +328,9 @@ func checkMain(id string, args []string) int {
 	printedKnown := map[string]bool{}
 	os.MkdirAll(filepath.Join(verif, "replays"), 0o755)
 	for _, r := range results {
+		if os.Getenv("VERIF_VERBOSE") != "" {
+			fmt.Printf("  job %-60s execs=%-9d steps=%-11d outcomes=%d wall=%.1fs %s\n", r.Name, r.Execs, r.Steps, len(r.Outcomes), r.WallS, r.Capped)
+		}
 		execs += r.Execs
 		nontriv += r.Nontrivial
 		steps += r.Steps
